@@ -9,6 +9,7 @@
 (*                                                                         *)
 (* Tokens (each expands to one or two argv strings in the driver):         *)
 (*  modes  e d v V h  le ld lv (long forms)  en dn vn (clustered with -n) n*)
+(*         leAbbr (--enc: getopt_long accepts unambiguous abbreviations)   *)
 (*  input  iF plaintext file  iE valid .wenc made with key K  iMissing     *)
 (*         iLong existing 190-character path  iNoArg (-i without argument) *)
 (*         iProc readable file in a directory that cannot take new files   *)
@@ -29,12 +30,12 @@
 (***************************************************************************)
 EXTENDS Naturals, Sequences, FiniteSets
 
-ModeTok == {"e", "d", "v", "V", "h", "le", "ld", "lv", "en", "dn", "vn"}
-ModeOf(t) == CASE t \in {"e", "le", "en"} -> "e" [] t \in {"d", "ld", "dn"} -> "d" [] t \in {"v", "lv", "vn"} -> "v"
+ModeTok == {"e", "d", "v", "V", "h", "le", "ld", "lv", "en", "dn", "vn", "leAbbr"}
+ModeOf(t) == CASE t \in {"e", "le", "en", "leAbbr"} -> "e" [] t \in {"d", "ld", "dn"} -> "d" [] t \in {"v", "lv", "vn"} -> "v"
                [] t = "V" -> "V" [] t = "h" -> "h"
 Tokens == ModeTok \cup {"n", "iF", "iE", "iMissing", "iLong", "iLen122", "iLen123", "iProc", "iNoArg", "iBadC", "iBadH", "iTam", "iEmpty", "oO", "oBad", "kK", "kW", "kShort", "kBadChar",
                         "kNoPad", "kOnePad", "kLong", "kHigh", "kEmpty", "c0", "c2", "c4", "c5", "c100", "c256", "c260", "cNeg", "cHuge", "cabc", "cEmpty",
-                        "h0", "h1", "h2", "h3", "h256", "hNeg", "hHuge", "iEmptyArg", "oEmptyArg", "x", "stray"}
+                        "h0", "h1", "h2", "h3", "h256", "hNeg", "hHuge", "iEmptyArg", "oEmptyArg", "kAbbr", "cAbbr", "x", "stray"}
 S0 == [mode |-> "u", ct |-> FALSE, ht |-> FALSE, in |-> "none", out |-> "none", key |-> "none", quiet |-> FALSE, err |-> FALSE, may |-> FALSE]
 
 \* one token; the first offending token ends the parse (err)
@@ -53,9 +54,9 @@ Step(s, t) ==
                   "c5", "c100", "c256", "c260", "cNeg", "cHuge", "h3", "h256", "hNeg", "hHuge", "x"}
        THEN [s EXCEPT !.err = TRUE]
   ELSE IF t = "oO" THEN [s EXCEPT !.out = "O"]
-  ELSE IF t = "kK" THEN [s EXCEPT !.key = "K"]
+  ELSE IF t \in {"kK", "kAbbr"} THEN [s EXCEPT !.key = "K"]
   ELSE IF t = "kW" THEN [s EXCEPT !.key = "W"]
-  ELSE IF t \in {"c0", "c2", "c4"} THEN (IF s.ct THEN [s EXCEPT !.err = TRUE] ELSE [s EXCEPT !.ct = TRUE])
+  ELSE IF t \in {"c0", "c2", "c4", "cAbbr"} THEN (IF s.ct THEN [s EXCEPT !.err = TRUE] ELSE [s EXCEPT !.ct = TRUE])
   ELSE IF t \in {"cabc", "cEmpty"} THEN (IF s.ct THEN [s EXCEPT !.err = TRUE] ELSE [s EXCEPT !.ct = TRUE, !.may = TRUE])   \* not a number
   ELSE IF t \in {"h0", "h1", "h2"} THEN (IF s.ht THEN [s EXCEPT !.err = TRUE] ELSE [s EXCEPT !.ht = TRUE])
   ELSE IF t = "stray" THEN [s EXCEPT !.may = TRUE]
@@ -95,7 +96,7 @@ Seqs(n) == UNION { [1..k -> Tokens] : k \in 0..n }
 \* no mode or two modes never succeeds; decrypt/verify never succeed without a key
 NoModeFails == \A ts \in Seqs(2) : (\A i \in 1..Len(ts) : ts[i] \notin ModeTok) => Class(ts) = "FAIL"
 TwoModesFail == \A a, b \in ModeTok : Class(<<a, b>>) = "FAIL" /\ Class(<<a, "iF", b>>) = "FAIL"
-NeedKey == \A ts \in Seqs(3) : (ModeFinal(ts) \in {"d", "v"} /\ \A i \in 1..Len(ts) : ts[i] \notin {"kK", "kW"}) => Class(ts) = "FAIL"
+NeedKey == \A ts \in Seqs(3) : (ModeFinal(ts) \in {"d", "v"} /\ \A i \in 1..Len(ts) : ts[i] \notin {"kK", "kW", "kAbbr"}) => Class(ts) = "FAIL"
 BadValueFails == \A bad \in {"kShort", "kBadChar", "kNoPad", "kOnePad", "kLong", "c5", "c256", "cNeg", "h3", "h256", "hNeg", "x", "oBad", "iMissing", "kEmpty", "iEmptyArg", "oEmptyArg"} :
                    \A ts \in Seqs(2) : Class(ts \o <<bad>>) = "FAIL"
 =============================================================================
